@@ -13,6 +13,7 @@ pub fn mix(a: u32, b: u32) -> u32 {
 
 /// Masks selected by an input value (lattice programs).
 pub const MASKS: [u32; 4] = [0xFF, 0x0F, 0x33, 0x55];
+pub const MAXCAP: u32 = 4;
 pub const SAT_MASKS: [u32; 8] = [0x01, 0x02, 0x04, 0x08, 0x03, 0x0C, 0x0F, 0xFF];
 
 #[derive(Clone, Copy, Debug, PartialEq, Eq, Hash, PartialOrd, Ord, Serialize, Deserialize)]
@@ -99,6 +100,11 @@ pub enum Op {
     /// value-dependent: it disappears once the earlier ops of the body have produced the masked
     /// bits, e.g. in a later fixpoint iteration. Fix / FixJoin programs only.
     CallSat { node: u8, arg: Src, mask: u32 },
+    /// max-plus programs only (`Program::maxplus`; values are integers 0..=MAXCAP, join = max):
+    /// stop if acc == MAXCAP; skip if acc < guard; else acc = max(acc, min(call + add, MAXCAP)).
+    /// Monotone, so the reference is the least fixpoint; both the guard and the saturation make
+    /// the dependency value-dependent (edges appear and disappear between iterations).
+    CallMax { node: u8, arg: Src, add: u32, guard: u32 },
 }
 
 #[derive(Clone, Debug, PartialEq, Eq, Hash, Serialize, Deserialize)]
@@ -131,6 +137,10 @@ pub struct Program {
     /// only guaranteed for workers pinned to one core)
     #[serde(default)]
     pub sym_hash: bool,
+    /// lattice programs over integers 0..=MAXCAP with max as join (`Read` = max with the field
+    /// value, `Call` = max with the callee, `CallMax`)
+    #[serde(default)]
+    pub maxplus: bool,
 }
 
 #[derive(Clone, Debug, PartialEq, Eq, Hash, Serialize, Deserialize)]
@@ -209,6 +219,8 @@ pub struct Profile {
     /// inputs, readers that call a creator and then `on_ent_spec` on its struct
     pub spec_shape_pct: u32,
     pub sym_hash_pct: u32,
+    /// percentage of lattice programs generated as max-plus programs (Fix functions only)
+    pub maxplus_pct: u32,
 }
 
 impl Profile {
@@ -242,6 +254,7 @@ impl Profile {
             sat_pct: 0,
             spec_shape_pct: 0,
             sym_hash_pct: 0,
+            maxplus_pct: 0,
         }
     }
 }
@@ -381,7 +394,7 @@ pub fn gen_program(t: &mut Tape, pf: &Profile) -> Program {
     let on_sym = strip(on_sym);
     let coarse_hash = pf.coarse_hash_pct > 0 && g.t.pick(100) < pf.coarse_hash_pct;
     let sym_hash = pf.sym_hash_pct > 0 && g.t.pick(100) < pf.sym_hash_pct;
-    Program { slots, cells, nodes, base: base as u8, on_ent, on_ent_spec, on_sym, lattice: false, coarse_hash, sym_hash }
+    Program { slots, cells, nodes, base: base as u8, on_ent, on_ent_spec, on_sym, lattice: false, coarse_hash, sym_hash, maxplus: false }
 }
 
 pub fn gen_history(t: &mut Tape, prog: &Program, pf: &Profile) -> Vec<Step> {
@@ -506,7 +519,7 @@ pub fn static_callees(ops: &[Op]) -> Vec<u8> {
     let mut out = vec![];
     for o in ops {
         match o {
-            Op::Call { node, .. } | Op::CallMask { node, .. } | Op::CallShift { node, .. } | Op::CallInc { node, .. } | Op::CallNot { node, .. } | Op::CallSat { node, .. } => out.push(*node),
+            Op::Call { node, .. } | Op::CallMask { node, .. } | Op::CallShift { node, .. } | Op::CallInc { node, .. } | Op::CallNot { node, .. } | Op::CallSat { node, .. } | Op::CallMax { node, .. } => out.push(*node),
             Op::If { then, els, .. } => {
                 out.extend(static_callees(then));
                 out.extend(static_callees(els));
@@ -531,6 +544,9 @@ pub fn gen_case(tape: &[u32], pf: &Profile) -> Case {
 /// Three layers: layer 0 = plain leaves (indices < l0), layer 1 = cyclic kinds calling any
 /// layer-1 node and layer 0, layer 2 = plain callers of anything below.
 pub fn gen_lattice_program(t: &mut Tape, pf: &Profile) -> Program {
+    if pf.maxplus_pct > 0 && t.pick(100) < pf.maxplus_pct {
+        return gen_maxplus_program(t, pf);
+    }
     let nslots = 1 + t.pick(pf.max_slots);
     let mut slots = Vec::new();
     for _ in 0..nslots {
@@ -586,7 +602,35 @@ pub fn gen_lattice_program(t: &mut Tape, pf: &Profile) -> Program {
         lattice: true,
         coarse_hash: false,
         sym_hash: false,
+        maxplus: false,
     }
+}
+
+/// Max-plus programs: 2..=5 fixpoint functions, each `[Read base; CallMax edge; ...]` with edges to
+/// any function (itself included), increments 0..=2 and guards 0..=2.
+pub fn gen_maxplus_program(t: &mut Tape, pf: &Profile) -> Program {
+    let nslots = 1 + t.pick(pf.max_slots);
+    let mut slots = Vec::new();
+    for _ in 0..nslots {
+        let mut s = [(0, D::Low); 2];
+        for f in &mut s {
+            *f = (t.pick(3), D::from_idx(t.weighted(&pf.durs)));
+        }
+        slots.push(s);
+    }
+    let n = 2 + t.pick(4);
+    let mut nodes = vec![];
+    for _ in 0..n {
+        let mut body = vec![];
+        if t.chance(3, 4) {
+            body.push(Op::Read { slot: t.pick(nslots) as u8, field: t.pick(2) as u8 });
+        }
+        for _ in 0..1 + t.pick(3) {
+            body.push(Op::CallMax { node: t.pick(n) as u8, arg: Src::Const(0), add: t.weighted(&[3, 2, 2]) as u32, guard: t.weighted(&[4, 2, 1]) as u32 });
+        }
+        nodes.push(Node { kind: Kind::Fix, nargs: 1, body, ret_h: false });
+    }
+    Program { slots, cells: vec![], nodes, base: 0, on_ent: vec![], on_ent_spec: vec![], on_sym: vec![], lattice: true, coarse_hash: false, sym_hash: false, maxplus: true }
 }
 
 #[allow(clippy::too_many_arguments)]
@@ -703,7 +747,7 @@ pub fn gen_spec_program(t: &mut Tape, pf: &Profile) -> Program {
     };
     let on_ent = special(t);
     let on_ent_spec = special(t);
-    Program { slots, cells: vec![], nodes, base: ncr as u8, on_ent, on_ent_spec, on_sym: vec![Op::SymField { h: 0 }], lattice: false, coarse_hash: false, sym_hash: false }
+    Program { slots, cells: vec![], nodes, base: ncr as u8, on_ent, on_ent_spec, on_sym: vec![Op::SymField { h: 0 }], lattice: false, coarse_hash: false, sym_hash: false, maxplus: false }
 }
 
 // ---------------------------------------------------------------------------------------------
@@ -784,5 +828,6 @@ pub fn gen_intern_program(t: &mut Tape, pf: &Profile) -> Program {
         lattice: false,
         coarse_hash: false,
         sym_hash: pf.sym_hash_pct > 0 && t.pick(100) < pf.sym_hash_pct,
+        maxplus: false,
     }
 }
